@@ -161,6 +161,68 @@ theorem confirm_duplicate_refused (l : L) (id pre : Nat) (txs : List (Nat × Boo
     (confirm l id pre txs).2 = .fail := by
   unfold confirm; simp [h]
 
+theorem saveBlock_stores (l : L) (id : Nat) (h : Hdr) : (lookup (saveBlock l id h).B id).isSome = true := by
+  unfold saveBlock
+  simp only
+  rw [lookup_put]
+  simp
+
+/-- an accepted block is stored -/
+theorem confirm_accepted_stored (l : L) (id pre : Nat) (txs : List (Nat × Bool)) (h : (confirm l id pre txs).2 ≠ .fail) :
+    (lookup (confirm l id pre txs).1.B id).isSome = true := by
+  unfold confirm at h ⊢
+  by_cases h1 : (lookup l.B id).isSome = true
+  · simp [h1] at h
+  · simp only [h1] at h ⊢
+    cases hp : lookup l.B pre with
+    | none => simp [hp] at h
+    | some pb =>
+      simp only [hp] at h ⊢
+      by_cases h2 : pre = l.tip
+      · simp only [h2, ↓reduceIte] at h ⊢
+        cases hc : confirmTxs l id true l.trunkHeight txs 0 _ with
+        | none => simp [hc] at h
+        | some l4 =>
+          simp only
+          rw [(confirmTxs_frame _ _ _ _ _ _ _ _ hc).1]
+          simp only
+          apply saveBlock_stores
+      · simp only [h2, ↓reduceIte] at h ⊢
+        by_cases h3 : pb.height + 1 > l.trunkHeight
+        · simp only [h3, ↓reduceIte] at h ⊢
+          cases hf : handleFork l (l.trunkHeight + 2) l.tip pre (some id) l with
+          | none => simp [hf] at h
+          | some r =>
+            obtain ⟨l1, sh⟩ := r
+            simp only [hf] at h ⊢
+            cases hc : confirmTxs l id true sh txs 0 _ with
+            | none => simp [hc] at h
+            | some l4 =>
+              simp only
+              rw [(confirmTxs_frame _ _ _ _ _ _ _ _ hc).1]
+              simp only
+              apply saveBlock_stores
+        · simp only [h3, ↓reduceIte] at h ⊢
+          cases hc : confirmTxs l id false l.trunkHeight txs 0 _ with
+          | none => simp [hc] at h
+          | some l4 =>
+            simp only [Bool.false_eq_true, ↓reduceIte]
+            rw [(confirmTxs_frame _ _ _ _ _ _ _ _ hc).1]
+            simp only
+            apply saveBlock_stores
+
+/-- **the same block submitted twice** (two peers pushing it): whatever the first submission did, the second is refused and
+writes nothing - so of two submissions of one block, in either order, at most one is accepted and the ledger is the one
+after a single submission. (`lrace confirm:b confirm:b` checks that the real ledger behaves like one of the two orders
+when both submissions are in flight at once.) -/
+theorem confirm_same_block_twice (l : L) (id pre : Nat) (txs : List (Nat × Bool)) (pre' : Nat) (txs' : List (Nat × Bool))
+    (h : (confirm l id pre txs).2 ≠ .fail) :
+    confirm (confirm l id pre txs).1 id pre' txs' = ((confirm l id pre txs).1, .fail) := by
+  have hs := confirm_accepted_stored l id pre txs h
+  generalize (confirm l id pre txs).1 = l1 at hs ⊢
+  unfold confirm
+  simp [hs]
+
 /-- a block whose parent is not stored is refused -/
 theorem confirm_unknown_parent_refused (l : L) (id pre : Nat) (txs : List (Nat × Bool)) (h : lookup l.B pre = none) :
     (confirm l id pre txs).2 = .fail := by
@@ -430,6 +492,53 @@ theorem truncate_hfull_refuted : ¬ truncate_hfull_statement := by
   have : lookup (truncate (confirm (confirm (confirm (genesis 0 []) 1 0 [(7, false)]).1 2 0 [(8, false)]).1 3 2
       [(7, false)]).1 2).1.B 3 = none := by decide
   rw [this] at h2; cases h2
+
+/-! ### a branch-tip scan that breaks off (storage read fault) -/
+
+/-- `truncate` is `truncateOn` applied to the complete scan -/
+theorem truncateOn_scanTips (l : L) (target : Nat) (th : Hdr) (h : lookup l.B target = some th) :
+    truncateOn l target (scanTips l target th.height) = truncate l target := by
+  simp [truncateOn, truncate, scanTips, h]
+
+/-- a scan that breaks off makes the truncation fail and leaves every table as it was, wherever it breaks off -/
+theorem truncateScan_fault_noop (l : L) (target n : Nat) : truncateScan l target (some n) = (l, false) := by
+  unfold truncateScan; cases lookup l.B target <;> rfl
+
+/-- without a fault `truncateScan` is `truncate`: `truncate_inv` carries over -/
+theorem truncateScan_inv (l : L) (target : Nat) (brk : Option Nat) (I : LedgerInv l) (hon : target ∈ pathOf l l.tip) :
+    LedgerInv (truncateScan l target brk).1 := by
+  unfold truncateScan
+  cases hb : lookup l.B target with
+  | none => exact I
+  | some th =>
+    cases brk with
+    | none => exact truncate_inv l target I hon
+    | some n => exact I
+
+/-- trusting a scan that broke off — FALSE, see `truncate_partial_scan_refuted` -/
+def truncate_partial_scan_statement : Prop :=
+  ∀ (l : L) (target n : Nat), LedgerInv l → target ∈ pathOf l l.tip → LedgerInv (truncatePartial l target n).1
+
+/-- witness: main chain 0 - 1 - 2 and a side block 3 on the root: two branch tips (2 and 3) above the root. A truncation to
+the root that is told about the first tip only reports success with trunk height 0 and leaves a block of height 1 stored -/
+theorem truncate_partial_scan_refuted : ¬ truncate_partial_scan_statement := by
+  intro h
+  have I0 := genesis_inv 0 []
+  have I1 := confirm_inv _ 1 0 [] I0 (by decide) (by decide)
+  have I2 := confirm_inv _ 2 1 [] I1 (by decide) (by decide)
+  have I3 := confirm_inv _ 3 0 [] I2 (by decide) (by decide)
+  have I' := h _ 0 1 I3 (by decide)
+  have hex : ∃ b hd, lookup (truncatePartial (confirm (confirm (confirm (genesis 0 []) 1 0 []).1 2 1 []).1 3 0 []).1 0 1).1.B b
+      = some hd ∧ hd.height = 1 := by
+    first
+      | exact ⟨3, ⟨some 0, 1, false, none, []⟩, by decide, rfl⟩
+      | exact ⟨1, ⟨some 0, 1, true, some 2, []⟩, by decide, rfl⟩
+      | exact ⟨1, ⟨some 0, 1, true, none, []⟩, by decide, rfl⟩
+  obtain ⟨b, hd, hb, hh⟩ := hex
+  have := I'.height_le b hd hb
+  have ht : (truncatePartial (confirm (confirm (confirm (genesis 0 []) 1 0 []).1 2 1 []).1 3 0 []).1 0 1).1.trunkHeight = 0 := by
+    decide
+  omega
 
 /-! ### the hypotheses of `truncate_inv` and `confirm_inv` are needed -/
 
